@@ -39,7 +39,7 @@ def judge(ev):
 def record(col, ev, extra=()):
     m, ex = ev.msg, ev.ex
     if m.level not in ('story', 'item'):
-        col.record(ev.case, False, [f'other-level:{m.level}'], [], key=0)
+        col.record(ev.case, False, [f'other-level:{m.level}'], judge(ev), key=0)
         return
     if ex.degenerate:
         col.excluded['repeated/self-referential IDs (ambiguous)'] += 1
@@ -100,7 +100,7 @@ def run(tier, seed, procs):
     refs = ['TGT', '', 'ZZ-unknown-story']
     cols += drive.pool_map(drive.shard_enum_item,
                            [(MOD, m, 'mixed', K, pos, refs) for m in range(0, M + 1) for pos in (0, 1)], procs)
-    kw = dict(kinds=gen.STORY_KINDS + gen.ITEM_KINDS, faults='some', rich=True, degenerate=False,
+    kw = dict(kinds=gen.STORY_KINDS + gen.ITEM_KINDS + gen.META_KINDS[:3], faults='some', rich=True, degenerate=False,
               min_stories=1)
     shards, per = (8, 400) if quick else (16, 15000)
     cols += drive.pool_map(drive.shard_hyp_steps,
